@@ -2,8 +2,8 @@
 
 One module (spec/ads/AuthMap.tla), one adapter (harness/sut/ads) that builds ads.NewMap or ads.NewSet
 over mapdb according to cfg.flavour.  Quick tier: TLC exhaustive on AuthMap.cfg (3 keys x 3 values),
-transition tour over AuthMap.lts.cfg (map 3 keys x {"", "a"}, set 4 keys; both serializers of the empty
-value; observers in st / observers as stimuli), recorded histories over 4 keys x 3 values.
+transition tour over AuthMap.lts.cfg (map 3 keys x {"", "a"}, set 4 keys; the empty value as empty and as nil slice; 
+observers in st / observers as stimuli), recorded histories over 4 keys x 3 values.
 Thorough tier: TLC on AuthMap.thorough.cfg (4 keys), tour over AuthMap.ltsthorough.cfg (3 keys x 3 values).
 """
 import glob
@@ -31,5 +31,5 @@ class AdsUnit(SeqUnit):
 
 def units(ctx):
     return [
-        AdsUnit("ads", "AuthMap", traces=(120, 80), thorough_traces=(800, 120), mc_timeout=1500),
+        AdsUnit("ads", "AuthMap", traces=(200, 100), thorough_traces=(800, 120), mc_timeout=1500),
     ]
